@@ -25,7 +25,7 @@ type cfg struct {
 	Residual int  // 0: same ring, 1: standard ring of degree N/2 (ring-degree switch), 2: conjugate-invariant ring of degree N/2, 3: standard ring N/4
 	Batch    int  // number of ciphertexts handed to BootstrapMany minus one (0..3)
 	CtGap    int  // ciphertext LogSlots = min(LogSlots, residual max) - CtGap (sparser input than the literal's LogSlots)
-	Iter     int  // 0: one iteration, 1: two iterations without reserved prime, 2: two iterations with a reserved prime
+	Iter     int  // 0: one bootstrap, 1: one extra iteration {20} without reserved prime, 2: {20} with a reserved prime, 3: two extra iterations {20,20} with a reserved prime
 	Mod1     int  // 0: CosDiscrete, 1: SinContinuous, 2: CosContinuous
 	DblAngle int  // 0: library default (3; 0 for Sin), k>0: DoubleAngle = k-1
 	ArcSine  int  // 0: off, 1: Mod1InvDegree=5, 2: Mod1InvDegree=7
@@ -34,6 +34,7 @@ type cfg struct {
 	InLevel  int  // input level (0..2); 2 uses a three-prime residual chain
 	Small    bool // message magnitude 2^-8 instead of ~1
 	Copy     bool // bootstrap with a ShallowCopy of an evaluator that has already been used
+	Q0       int  // first residual prime: 0: 60 bits (= the EvalMod scale: ModUp has nothing to scale), 1: 55 bits, 2: 50 bits (ModUp multiplies by round(2^60/Q[0]) = 32 / 1024)
 }
 
 // mainH is the Hamming weight of the sparse main secret. It differs from the ephemeral weight (32) so that
@@ -111,6 +112,7 @@ func (k cfg) key() string {
 	add(k.InLevel != 0, fmt.Sprintf("lvl%d", k.InLevel))
 	add(k.Small, "small")
 	add(k.Copy, "copy")
+	add(k.Q0 != 0, fmt.Sprintf("q0-%d", k.q0Bits()))
 	return b.String()
 }
 
@@ -157,18 +159,48 @@ func kFor(h int) int {
 	return k
 }
 
-// literals translates the configuration into the two library literals.
-func (k cfg) literals() (ckks.ParametersLiteral, bootstrapping.ParametersLiteral) {
-	rl := k.residualLogN()
-	logQ := []int{60, 40}
-	logScale := 40
+func (k cfg) q0Bits() int { return [...]int{60, 55, 50}[k.Q0] }
+
+// residualChain returns the residual LogQ and LogDefaultScale.
+func (k cfg) residualChain() (logQ []int, logScale int) {
+	logQ, logScale = []int{k.q0Bits(), 40}, 40
 	if k.InLevel == 2 {
-		logQ = []int{60, 40, 40}
+		logQ = []int{k.q0Bits(), 40, 40}
 	}
 	if k.Iter != 0 {
 		// the library's own high-precision recipe (evaluator_test.go): scale 2^80 over two primes, input at level 1
 		logScale = 80
 	}
+	return
+}
+
+// inputLevel is the level of the input ciphertext(s): InLevel, the top level in the iterated (scale 2^80) mode.
+func (k cfg) inputLevel() int {
+	logQ, _ := k.residualChain()
+	level := k.InLevel
+	if k.Iter != 0 || level > len(logQ)-1 {
+		level = len(logQ) - 1
+	}
+	return level
+}
+
+// iterations returns the BootstrappingPrecision list and the reserved prime size of the iterated mode.
+func (k cfg) iterations() (prec []float64, reserved int) {
+	switch k.Iter {
+	case 1:
+		return []float64{20}, 0
+	case 2:
+		return []float64{20}, 28
+	case 3:
+		return []float64{20, 20}, 28
+	}
+	return nil, 0
+}
+
+// literals translates the configuration into the two library literals.
+func (k cfg) literals() (ckks.ParametersLiteral, bootstrapping.ParametersLiteral) {
+	rl := k.residualLogN()
+	logQ, logScale := k.residualChain()
 	res := ckks.ParametersLiteral{
 		LogN:            rl,
 		LogQ:            logQ,
@@ -189,8 +221,19 @@ func (k cfg) literals() (ckks.ParametersLiteral, bootstrapping.ParametersLiteral
 		LogP:     []int{61},
 		Xs:       k.secret(k.LogN),
 	}
-	// the test suite's size-reduction recipe: the message ratio grows by 16-LogN to keep the precision
-	btp.LogMessageRatio = utils.Pointy(bootstrapping.DefaultLogMessageRatio + 16 - k.LogN)
+	// the test suite's size-reduction recipe: the message ratio grows by 16-LogN to keep the precision ...
+	ratio := bootstrapping.DefaultLogMessageRatio + 16 - k.LogN
+	// ... as far as the input leaves room for it: Evaluate documents that the input scale must stay below
+	// Q/MessageRatio at the input level (ScaleDown refuses less than half of it). With the 60-bit first prime this
+	// never binds (20 bits of room at level 0); with the 55/50-bit ones it does at level 0 and in the 2^80-scale mode.
+	room := -logScale
+	for _, b := range logQ[:k.inputLevel()+1] {
+		room += b
+	}
+	if ratio > room-1 {
+		ratio = room - 1
+	}
+	btp.LogMessageRatio = utils.Pointy(ratio)
 	if k.NoEncaps {
 		btp.EphemeralSecretWeight = utils.Pointy(0)
 	}
@@ -242,11 +285,8 @@ func (k cfg) literals() (ckks.ParametersLiteral, bootstrapping.ParametersLiteral
 	}
 	btp.CoeffsToSlotsFactorizationDepthAndLogScales = c2sSplits[k.C2S]
 	btp.SlotsToCoeffsFactorizationDepthAndLogScales = s2cSplits[k.S2C]
-	switch k.Iter {
-	case 1:
-		btp.IterationsParameters = &bootstrapping.IterationsParameters{BootstrappingPrecision: []float64{20}}
-	case 2:
-		btp.IterationsParameters = &bootstrapping.IterationsParameters{BootstrappingPrecision: []float64{20}, ReservedPrimeBitSize: 28}
+	if prec, reserved := k.iterations(); prec != nil {
+		btp.IterationsParameters = &bootstrapping.IterationsParameters{BootstrappingPrecision: prec, ReservedPrimeBitSize: reserved}
 	}
 	return res, btp
 }
